@@ -1,0 +1,113 @@
+//go:build verif
+
+package evm
+
+// Contracts for the deductive checks in /verif (tool: govc). Comment-only; build tag `verif`.
+// The go-ethereum interpreter is the reference EVM; what is verified here is the hand-written layer
+// that couples its state to the native account ledger (spec functions in /verif/spec/evm.spec).
+
+//@ func (s *StateDBWrapper) Snapshot()
+//@   nopanic
+//@   requires s != nil && s.StateDB != nil
+//@   modifies s.snapshot, evmSnapMax
+//@   ensures result == s.snapshot && result > old(evmSnapMax) && evmSnapMax == result && result >= 0           [C17,C05]
+
+//@ func (s *StateDBWrapper) addAccessedObjAddr(addr)
+//@   nopanic
+//@   requires wf_wrapper(s)
+//@   modifies mapof(s.accessedObjAddrs), evmNonce, evmBal, allmaps(memItems.gotItems), itemkey, itemenc
+//@   allocates Account, uint256.Int
+//@   ensures old(has(s.accessedObjAddrs, addr)) ==> evmNonce == old(evmNonce) && evmBal == old(evmBal) && s.accessedObjAddrs[addr] == old(s.accessedObjAddrs[addr])   [C17]
+//@   ensures forall a :: a != addr ==> has(s.accessedObjAddrs, a) == old(has(s.accessedObjAddrs, a)) && s.accessedObjAddrs[a] == old(s.accessedObjAddrs[a])      [C17]
+//@   ensures forall a :: a != addr ==> evmNonce[a] == old(evmNonce[a]) && evmBal[a] == old(evmBal[a])        [C17]
+//@   ensures !old(has(s.accessedObjAddrs, addr)) && has(s.accessedObjAddrs, addr) ==> s.accessedObjAddrs[addr] == s.snapshot + 1 &&
+//@           evmNonce[addr] == acct_at(s.acctHandler, bytesof(addr), s.exec).Nonce && evmBal[addr] == u(acct_at(s.acctHandler, bytesof(addr), s.exec).Balance)   [C17,C04,C05]
+//@   ensures has(s.accessedObjAddrs, addr)                                                                    [C17]
+//@   ensures !old(has(s.accessedObjAddrs, addr)) ==> allocated(acctof(s.acctHandler, bytesof(addr), s.exec ? 1 : 0)) && allocated(acct_at(s.acctHandler, bytesof(addr), s.exec).Balance)   [C17]
+
+//@ func (s *StateDBWrapper) AddAddressToAccessList(addr)
+//@   sameas (*StateDBWrapper).addAccessedObjAddr
+
+//@ func (s *StateDBWrapper) revertAccessedObjAddr(snapshot)
+//@   nopanic
+//@   requires s != nil && s.accessedObjAddrs != nil && s.logger != nil
+//@   modifies mapof(s.accessedObjAddrs)
+//@   ensures forall a :: has(s.accessedObjAddrs, a) <==> (old(has(s.accessedObjAddrs, a)) && old(s.accessedObjAddrs[a]) <= snapshot)   [C17,C05]
+//@   ensures forall a :: has(s.accessedObjAddrs, a) ==> s.accessedObjAddrs[a] == old(s.accessedObjAddrs[a])   [C17]
+//@   loop 0: modifies elems(revertAddrs)
+//@   loop 0: invariant revertAddrs == nil || loopfresh(revertAddrs)
+//@   loop 0: invariant forall a :: (exists i :: 0 <= i && i < len(revertAddrs) && revertAddrs[i] == a) <==> (visited(a) && snapshot < s.accessedObjAddrs[a])
+//@   loop 0: invariant forall a :: visited(a) ==> has(s.accessedObjAddrs, a)
+//@   loop 1: modifies mapof(s.accessedObjAddrs)
+//@   loop 1: invariant forall a :: has(s.accessedObjAddrs, a) <==> (old(has(s.accessedObjAddrs, a)) && !(exists i :: 0 <= i && i <= rangeindex && revertAddrs[i] == a))
+//@   loop 1: invariant forall a :: has(s.accessedObjAddrs, a) ==> s.accessedObjAddrs[a] == old(s.accessedObjAddrs[a])
+
+//@ func (s *StateDBWrapper) RevertToSnapshot(revid)
+//@   nopanic
+//@   requires s != nil && s.accessedObjAddrs != nil && s.StateDB != nil && s.logger != nil
+//@   modifies mapof(s.accessedObjAddrs), evmNonce, evmBal
+//@   ensures forall a :: has(s.accessedObjAddrs, a) <==> (old(has(s.accessedObjAddrs, a)) && old(s.accessedObjAddrs[a]) <= revid)   [C17,C05]
+//@   ensures forall a :: has(s.accessedObjAddrs, a) ==> s.accessedObjAddrs[a] == old(s.accessedObjAddrs[a])   [C17]
+//@   assert@call(revertAccessedObjAddr,0): $arg1 == revid                                                     [C17]
+//@   assert@call(RevertToSnapshot,0): $arg1 == revid                                                          [C17]
+
+//@ func (s *StateDBWrapper) Prepare(txhash, txidx, from, to, snap, exec)
+//@   nopanic
+//@   requires wf_wrapper(s)
+//@   modifies s.exec, s.snapshot, mapof(s.accessedObjAddrs), evmNonce, evmBal, allmaps(memItems.gotItems), itemkey, itemenc
+//@   allocates Account, uint256.Int
+//@   ensures s.exec == exec && s.snapshot == snap                                                             [C17]
+//@   ensures forall a :: has(s.accessedObjAddrs, a) ==> (old(has(s.accessedObjAddrs, a)) && s.accessedObjAddrs[a] == old(s.accessedObjAddrs[a])) || s.accessedObjAddrs[a] == snap + 1   [C17,C05]
+//@   ensures forall a :: old(has(s.accessedObjAddrs, a)) ==> has(s.accessedObjAddrs, a)                       [C17]
+//@   ensures len(from) == 20 ==> has(s.accessedObjAddrs, addr20(from))                                        [C17,C04]
+//@   ensures len(from) == 20 && !old(has(s.accessedObjAddrs, addr20(from))) ==> synced(s, addr20(from))       [C17,C04]
+
+//@ func (s *StateDBWrapper) Finish()
+//@   nopanic
+//@   requires wf_wrapper(s)
+//@   modifies s.accessedObjAddrs, Account.Nonce, mem(uint256.Int), allmaps(memItems.gotItems), allmaps(StateDBWrapper.accessedObjAddrs), itemkey, itemenc
+//@   allocates Account, uint256.Int
+//@   ensures s.accessedObjAddrs != nil && fresh(s.accessedObjAddrs) && no_accessed(s)                         [C17]
+//@   ensures forall a :: old(has(s.accessedObjAddrs, a)) ==> acct_at(s.acctHandler, bytesof(a, 20), s.exec).Nonce == evmNonce[a] && u(acct_at(s.acctHandler, bytesof(a, 20), s.exec).Balance) == evmBal[a]   [C17,C04]
+//@   ensures old(no_accessed(s)) ==> (forall r :: !fresh(r) ==> as(r, ptr(Account)).Nonce == old(as(r, ptr(Account)).Nonce)) && (forall r :: !fresh(r) ==> u(r) == old(u(r)))   [C05,C04,C17]
+//@   ensures forall r :: !isbal(r) && !fresh(r) ==> u(r) == old(u(r))                                         [C17]
+//@   loop 0: invariant forall r :: !isbal(r) && !fresh(r) ==> u(r) == old(u(r))
+//@   loop 0: modifies Account.Nonce, mem(uint256.Int), allmaps(memItems.gotItems), itemkey, itemenc
+//@   loop 0: invariant forall a :: visited(a) ==> acct_at(s.acctHandler, bytesof(a, 20), s.exec).Nonce == evmNonce[a] && u(acct_at(s.acctHandler, bytesof(a, 20), s.exec).Balance) == evmBal[a]
+//@   loop 0: invariant forall a :: visited(a) ==> has(s.accessedObjAddrs, a)
+//@   loop 0: invariant forall a :: visited(a) ==> allocated(acctof(s.acctHandler, bytesof(a, 20), s.exec ? 1 : 0)) && allocated(acct_at(s.acctHandler, bytesof(a, 20), s.exec).Balance)
+//@   loop 0: invariant forall a :: visited(a) ==> balowner(acct_at(s.acctHandler, bytesof(a, 20), s.exec).Balance) == acctof(s.acctHandler, bytesof(a, 20), s.exec ? 1 : 0)
+//@   loop 0: invariant old(no_accessed(s)) ==> (forall r :: !fresh(r) ==> as(r, ptr(Account)).Nonce == old(as(r, ptr(Account)).Nonce)) && (forall r :: !fresh(r) ==> u(r) == old(u(r)))
+
+// execVM stands for go-ethereum's ApplyMessage run on the wrapper (trusted): it calls back into the
+// wrapper (access list -> addAccessedObjAddr, Snapshot, RevertToSnapshot), so it may add tracked
+// addresses, all tagged above the snapshot current at its start, and it keeps the earlier ones.
+//@ func (ctrler *EVMCtrler) execVM(from, to, nonce, gas, gasPrice, amt, data, exec)
+//@   trusted
+//@   requires wf_evm(ctrler)
+//@   modifies evmNonce, evmBal, evmSnapMax, mapof(ctrler.stateDBWrapper.accessedObjAddrs), ctrler.stateDBWrapper.snapshot, allmaps(memItems.gotItems), itemkey, itemenc
+//@   allocates Account, uint256.Int, core.ExecutionResult
+//@   ensures forall a :: old(has(ctrler.stateDBWrapper.accessedObjAddrs, a)) ==> has(ctrler.stateDBWrapper.accessedObjAddrs, a) && ctrler.stateDBWrapper.accessedObjAddrs[a] == old(ctrler.stateDBWrapper.accessedObjAddrs[a])
+//@   ensures forall a :: has(ctrler.stateDBWrapper.accessedObjAddrs, a) && !old(has(ctrler.stateDBWrapper.accessedObjAddrs, a)) ==> ctrler.stateDBWrapper.accessedObjAddrs[a] > old(evmSnapMax)
+//@   ensures (result1 == nil) <==> (result0 != nil)
+//@   ensures result1 == nil || fresh(result1)
+//@   ensures result1 == nil ==> result0.UsedGas <= gas
+//@   ensures result1 == nil && result0.Err == nil && len(from) == 20 && old(evmNonce[addr20(from)]) == nonce ==> evmNonce[addr20(from)] == nonce + 1
+//@   ensures evmSnapMax >= old(evmSnapMax)
+
+//@ func (ctrler *EVMCtrler) ExecuteTrx(ctx)
+//@   implements (ITrxHandler_TrxEVMHandler).ExecuteTrx
+//@   objinv wf_evm(ctrler) && no_accessed(ctrler.stateDBWrapper)
+//@   assumes ctrler.stateDBWrapper.acctHandler == ctx.AcctHandler
+//@   assumes ctx.Sender == acctof(ctx.AcctHandler, content(ctx.Tx.From), ctx.Exec ? 1 : 0) && balowner(ctx.Sender.Balance) == ctx.Sender && isbal(ctx.Sender.Balance) && len(ctx.Tx.From) == 20
+//@   requires wf_ctx(ctx)
+//@   requires ctx.Tx.Type == 6 || (ctx.Tx.Type == 1 && ctx.Receiver.Code != nil)
+//@   requires ctx.Sender.Nonce == ctx.Tx.Nonce
+//@   modifies everything
+//@   preserves Trx.*, TrxContext.Tx, TrxContext.Sender, TrxContext.Receiver, TrxContext.Exec, TrxContext.ChainID, TrxContext.AcctHandler, TrxContext.GovHandler, Account.Balance, govGasPrice, govMinTrxGas
+//@   ensures wf_ctx(ctx) && tx_same(ctx.Tx)
+//@   ensures result == nil && ctx.Exec ==> ctx.Sender.Nonce == old(ctx.Sender.Nonce) + 1                      [C04,C17]
+//@   ensures result != nil ==> ctx.Sender.Nonce == old(ctx.Sender.Nonce) && u(ctx.Sender.Balance) == old(u(ctx.Sender.Balance))   [C04,C05,C17]
+//@   ensures result == nil ==> ctx.GasUsed <= ctx.Tx.Gas || ctx.GasUsed == old(ctx.GasUsed)                 [C16]
+//@   ensures result != xerrors.ErrUnknownTrxType                                                              [C04,C16]
+//@   ensures old(ctx.Receiver.Code) != nil ==> ctx.Receiver.Code != nil                                       [C04,C16]
